@@ -30,6 +30,7 @@ func setupFixtures() {
 		regCert("c.forever", k1, plain+" forever", 0, math.MaxUint64, nil)
 		regCert("c.vb63", k1, plain+" vb63", 0, 1<<63, nil)
 		regCert("c.va63", k1, plain+" va63", 1<<63+5, math.MaxUint64, nil)
+		regCert("c.inverted", k1, plain+" inverted", t+h, t-h, nil)
 		regCert("c2.cur", k2, plain+" k2 cur", t-h, t+h, nil)
 		regCert("c2.past", k2, plain+" k2 past", t-2*h, t-h, nil)
 		regCert("c2.lapsing", k2, plain+" k2 lapsing", t-h, t+10, nil)
